@@ -177,6 +177,17 @@ func (fx *Fx) builtinCall(st *State, name string, call *ast.CallExpr, spec bool)
 	case "cap":
 		v := fx.eval(st, call.Args[0], spec)
 		return intV(fx.seqLen(v))
+	case "Slice", "String":
+		// unsafe.Slice(unsafe.StringData(s), len(s)) and unsafe.String(unsafe.SliceData(b), len(b)): value conversions
+		if inner, ok := ast.Unparen(call.Args[0]).(*ast.CallExpr); ok && len(inner.Args) == 1 {
+			v := fx.eval(st, inner.Args[0], spec)
+			n := fx.eval(st, call.Args[1], spec)
+			if fx.inSpec == 0 {
+				fx.oblige(st, "bounds", exprText(call), app("=", n.X, fx.seqLen(v)), "unsafe conversion must cover exactly the source")
+			}
+			fx.note("unsafe.String/unsafe.Slice over StringData/SliceData are read as value conversions (aliasing with the source buffer ignored)")
+			return []Val{{T: fx.typeOf(call), S: SStr, X: v.X, Lit: v.Lit}}
+		}
 	}
 	panic(unsupported("builtin " + name))
 }
@@ -545,6 +556,9 @@ func (fx *Fx) callByContract(st *State, key string, spec *FuncSpec, fd *FuncDecl
 	}
 	pre := st.clone()
 	st.births++ // the callee may allocate: its new cells are younger than everything the caller knew
+	if fx.v.mayTouchTrace(key) || fx.specUsesTrace(spec) {
+		fx.havocTrace(st) // the callee appends to the ghost call trace
+	}
 	// havoc the modifies set
 	for _, m := range spec.Modifies {
 		fx.havocSpecLoc(st, callee, bind, m)
@@ -765,6 +779,10 @@ func (fx *Fx) abstractCall(st *State, recv string, meth string, args []Val, sig 
 	}
 	nn := fx.d.freshConst("T_n", SInt)
 	st.assume(app("=", nn, app("+", n, "1")))
+	if meth == "Write" && len(results) > 0 && results[0].S == SInt {
+		acc := fx.trCol(st, "acc", SInt)
+		st.trCols["acc"] = app("store", acc, nn, app("+", app("select", acc, n), results[0].X))
+	}
 	st.trN = nn
 	fx.assumed["abstract callee "+meth+": any result, no effect on the library's own state"] = true
 	// optional assumed contract for the abstract callee
@@ -941,6 +959,13 @@ func (fx *Fx) specBuiltin(st *State, call *ast.CallExpr) ([]Val, bool) {
 			panic(unsupported("zeroelem of untyped sequence"))
 		}
 		return []Val{{T: et, S: fx.d.sortOf(et), X: fx.d.zeroOf(et)}}, true
+	case "eqbytes":
+		// extensional equality of two byte strings
+		a := fx.eval(st, call.Args[0], true)
+		b := fx.eval(st, call.Args[1], true)
+		qv := sym(fx.d.freshName("q_e"))
+		return boolV(and(app("=", app("slen", a.X), app("slen", b.X)),
+			fmt.Sprintf("(forall ((%s Int)) (! (=> (and (<= 0 %s) (< %s (slen %s))) (= (sat %s %s) (sat %s %s))) :pattern ((sat %s %s)) :pattern ((sat %s %s))))", qv, qv, qv, a.X, a.X, qv, b.X, qv, a.X, qv, b.X, qv))), true
 	case "indexbyte":
 		a := fx.eval(st, call.Args[0], true)
 		c := fx.eval(st, call.Args[1], true)
@@ -1018,6 +1043,12 @@ func (fx *Fx) specBuiltin(st *State, call *ast.CallExpr) ([]Val, bool) {
 	case "crecv":
 		k := fx.eval(st, call.Args[0], true)
 		return []Val{{S: SRef, X: app("select", fx.trCol(st, "recv", SRef), k.X)}}, true
+	case "written":
+		// written(a, b): bytes accepted by the Write calls with trace index in [a, b)
+		a := fx.eval(st, call.Args[0], true)
+		b := fx.eval(st, call.Args[1], true)
+		acc := fx.trCol(st, "acc", SInt)
+		return intV(app("-", app("select", acc, b.X), app("select", acc, a.X))), true
 	case "callat":
 		k := fx.eval(st, call.Args[0], true)
 		return intV(app("select", fx.trCol(st, "callat", SInt), k.X)), true
@@ -1133,7 +1164,7 @@ func firstPattern(body, qv string) string {
 			}
 			term := body[start : end+1]
 			idx = start + 1
-			if !strings.HasSuffix(term, " "+qv+")") || seen[term] {
+			if !strings.HasSuffix(term, " "+qv+")") || seen[term] || strings.Contains(term, "(ite ") || strings.Contains(term, "(=> ") {
 				continue
 			}
 			// the remaining arguments must not contain the bound variable under arithmetic
@@ -1169,7 +1200,7 @@ func firstPatternLoose(body, qv string) string {
 				break
 			}
 			term := body[start : end+1]
-			if strings.Contains(term, qv) && !strings.Contains(term[1:], "(+ ") && !strings.Contains(term[1:], "(- ") && !strings.Contains(term[1:], "(mod ") {
+			if strings.Contains(term, qv) && !strings.Contains(term[1:], "(+ ") && !strings.Contains(term[1:], "(- ") && !strings.Contains(term[1:], "(mod ") && !strings.Contains(term, "(ite ") {
 				if best == "" || len(term) < len(best) {
 					best = term
 				}
